@@ -29,12 +29,14 @@ func newNode() *Node {
 }
 
 func (n *Node) insert(topic format.Topic, msg []byte) (bool, error) {
-	topic, token := topic.Next()
-	if token == "" {
+	// a nil topic means every level was consumed; an empty token is a
+	// legitimate (empty) topic level, not the end of the topic.
+	if topic == nil {
 		old := len(n.Buf) > 0
 		n.Buf = msg
 		return old, nil
 	}
+	topic, token := topic.Next()
 
 	if n.Children == nil {
 		n.Children = make(map[string]*Node)
@@ -50,11 +52,11 @@ func (n *Node) insert(topic format.Topic, msg []byte) (bool, error) {
 }
 
 func (n *Node) remove(topic format.Topic) error {
-	topic, token := topic.Next()
-	if token == "" {
+	if topic == nil {
 		n.Buf = nil
 		return nil
 	}
+	topic, token := topic.Next()
 	if n.Children == nil {
 		n.Children = make(map[string]*Node)
 	}
@@ -81,13 +83,13 @@ func (n *Node) count(counter int) int {
 	return counter
 }
 func (n *Node) match(topic format.Topic, msgs *[][]byte) error {
-	topic, token := topic.Next()
-	if token == "" {
+	if topic == nil {
 		if n.Buf != nil && len(n.Buf) > 0 {
 			*msgs = append(*msgs, n.Buf)
 		}
 		return nil
 	}
+	topic, token := topic.Next()
 	if token == MWC {
 		n.allRetained(msgs)
 	} else if token == SWC {
